@@ -28,6 +28,7 @@ type Engine struct {
 	pos     int
 	// stats
 	Instrs        int
+	stepLimit     int // verifrt.Terminates: abort the call when Instrs passes this (0 = off)
 	Paths         int
 	Unknowns      int
 	FuncsSeen     map[string]bool
@@ -651,6 +652,10 @@ func (e *Engine) runBlocks(fr *frame) {
 		var next *ssa.BasicBlock
 		for _, in := range b.Instrs {
 			e.Instrs++
+			if e.stepLimit > 0 && e.Instrs > e.stepLimit {
+				e.stepLimit = 0
+				panic(stepAbort{})
+			}
 			if e.trace {
 				fmt.Fprintf(os.Stderr, "%s%s: %v\n", strings.Repeat(" ", e.depth), fr.fn.Name(), in)
 			}
@@ -1611,3 +1616,6 @@ func (e *Engine) divConst(op token.Token, x, y Term, signed bool) Term {
 	}
 	return v.r
 }
+
+// stepAbort: the instruction budget of verifrt.Terminates ran out (the call is taken not to terminate)
+type stepAbort struct{}
